@@ -147,3 +147,36 @@ PLAN["C07"] = dict(
         J("tree-last-node", "native", ["c07", "--part", "tree-last-node"], shards=1, budget_s=20),
     ],
 )
+
+PLAN["C08"] = dict(
+    level="exploration",
+    engines=["closure-pause probes (native)", "conservation of increments under stress (native)", "compute-heavy free-run + linearizability checker (native)"],
+    assumptions=["a probe in which the competitor had not started or only reads is counted as missed, never as a violation"],
+    require={"probes_competitor_observed_blocked_until_closure_returned": 20, "increments_conserved": 1000, "rmw_calls_whose_closure_ran": 500},
+    jobs=lambda t: [
+        J("rmw", "native", ["c08", "--rounds", q(t, 120, 4000)], shards=q(t, 8, 12), budget_s=q(t, 40, 600), parallel=q(t, 8, 12)),
+    ],
+)
+
+PLAN["C12"] = dict(
+    level="fault_enumeration",
+    engines=["suspend engine: writer frozen at every instrumented step, read battery on another thread (native, AddressSanitizer)"],
+    assumptions=[
+        "suspension points are the hook sites (every Atomic load/store/swap/CAS, raw control-word access, lock and window site) of the listed writer scenarios",
+        "a non-returning read is a violation only when its thread is asleep (state S) and made no step in 2 s; otherwise inconclusive",
+    ],
+    require={"suspension_points": 5000, "scenarios": 20, "third_party_writer_parked_behind_reader": 1},
+    jobs=lambda t: [
+        J("suspend", "native", ["c12"], shards=8, budget_s=q(t, 60, 300), parallel=8),
+    ] + ([J("suspend-asan", "asan", ["c12"], shards=8, budget_s=300, parallel=8)] if t == "thorough" else []),
+)
+
+PLAN["C13"] = dict(
+    level="exploration",
+    engines=["predicate-side race orchestration (native)", "free-run with retain pseudo-operations in the linearizability checker (native)"],
+    assumptions=["a race in which the predicate never saw the key or the writer did not run is inconclusive"],
+    require={"races_completed_between_inspection_and_removal": 100, "retain_rejections_checked": 50, "retain_force_rejections_checked": 50},
+    jobs=lambda t: [
+        J("retain", "native", ["c13", "--rounds", q(t, 150, 5000)], shards=q(t, 8, 12), budget_s=q(t, 30, 600), parallel=q(t, 8, 12)),
+    ],
+)
